@@ -95,6 +95,23 @@ func TestMkCorpus(t *testing.T) {
 		c := b.AddCommit(nil, tree, ip(2))
 		b.Push(main, c, ip(2))
 		emitWitness(t, out, "C09", 1, b, full, "F7")
+	case "F63", "F63a", "F63b":
+		// file rule on src/* (key 3), unrelated global rule; a commit by key 2 changes README and src/x
+		w := envStr("VERIF_WITNESS", "")
+		b := NewWorldBuilder(t)
+		p := basePolicy()
+		if w != "F63a" {
+			p.Root.GlobalRules = []GlobalRuleSpec{{Name: "unrelated", Kind: "threshold", Patterns: []string{"git:refs/heads/unrelated"}, Threshold: 1}}
+		}
+		p.Files[0].Rules = append(p.Files[0].Rules, RuleSpec{Name: "protect-src", Patterns: []string{"file:src/*"}, Principals: []int{1003}, Threshold: 1})
+		b.AddPolicy(p, true)
+		files := []WFile{{"README", 1}, {"src/x", 2}}
+		if w == "F63b" {
+			files = []WFile{{"src/x", 2}}
+		}
+		c := b.AddCommit(nil, b.AddTree(files), ip(2))
+		b.Push(main, c, ip(2))
+		emitWitness(t, out, "C01", 1, b, full, w)
 	default:
 		t.Skip("set VERIF_WITNESS")
 	}
